@@ -70,6 +70,14 @@ func runC04Expiry(c *Ctx, seed uint64) {
 		defer w.Close()
 		fired := false
 		outcome := ""
+		var lastSigning *types.Operation
+		w.ResultHook = func(nd *world.Node, req, res *types.Operation) *types.Operation {
+			if nd.Idx == victim-1 && string(req.Type) == OpSigning {
+				cp := *req
+				lastSigning = &cp
+			}
+			return res
+		}
 		w.ColdHook = func(nd *world.Node, op *types.Operation) (*types.Operation, error) {
 			if nd.Idx != victim-1 || string(op.Type) != target || fired || nd.Cold == nil {
 				return nil, nil
@@ -155,6 +163,33 @@ func runC04Expiry(c *Ctx, seed uint64) {
 		c.Distinct("expiry|" + target + "|" + outcome)
 		c.Add("expiry_"+outcome, 1)
 		judgeStoredSecrets(c, w, w.Nodes[victim-1], sched.Derive(seed, 404, uint64(oi)), wit)
+		// the running machine after its password expired / with a wrong password set: a signing operation
+		// must not be answered with a partial signature (the share has to come through the password)
+		if lastSigning != nil && w.Nodes[victim-1].Cold != nil {
+			am := w.Nodes[victim-1].Cold
+			for _, how := range []string{"expired", "wrong-password"} {
+				am.DropSensitiveData()
+				if how == "wrong-password" {
+					am.SetEncryptionKey([]byte("not the operator's password"))
+				}
+				c.Eval(1)
+				res, err := func() (r types.Operation, e error) {
+					defer func() {
+						if p := recover(); p != nil {
+							e = fmt.Errorf("PANIC: %v", p)
+						}
+					}()
+					return am.GetOperationResult(*lastSigning)
+				}()
+				c.Distinct("signing-on-a-locked-machine|" + how)
+				c.Add("signing_operations_fed_to_a_locked_machine", 1)
+				if err == nil && string(res.Event) == EvPartialSign {
+					c.Violate("C04/share-used-without-the-password", fmt.Sprintf("the running machine (%s) answered a signing operation with a partial signature", how), wit)
+				}
+			}
+			am.SetEncryptionKey([]byte(world.Password))
+			_ = am.LoadKeysFromDB()
+		}
 	})
 }
 
